@@ -243,7 +243,7 @@ def r3_errors(ctx, fn):
     sends = [c for c in walk_shallow(pr) if isinstance(c, ast.Call) and unparse(c.func) == "self._send.send"]
     ok = len(sends) == 1 and not guards_of(enclosing_stmt(sends[0]), pr) and isinstance(sends[0].args[0], ast.Tuple) and len(sends[0].args[0].elts) == 3 \
         and all(isinstance(e, ast.Name) for e in sends[0].args[0].elts[:2]) and "_poisoned" in unparse(sends[0].args[0].elts[2])
-    tr = [x for x in pr.body if isinstance(x, ast.Try)]
+    tr = [x for x in pr.body if isinstance(x, ast.Try) and any(isinstance(y, ast.Call) and unparse(y.func) == "self._line.run" for b_ in x.body for y in ast.walk(b_))]
     ok = ok and len(tr) == 1 and any(unparse(h.type) == "Exception" for h in tr[0].handlers if h.type is not None) and bool(tr[0].orelse)
     ctx.ob("C08.R3", LNS, "ProcessLine.run", sends[0] if sends else pr, "the worker always sends (exception, traceback, poisoned) back, whatever happened", ok, stmt="send result")
     # the queue sink's tolerant handler (closed/broken queue) must not swallow errors of the lazily evaluated upstream filter:
@@ -282,7 +282,10 @@ def r4_cleanup(ctx, fn):
     drains_out = set(nodes_where(g, lambda n: n.ast is not None and node_ast_for_effects(n) is not None and f"{ROLES.out_queue}.get_nowait()" in unparse(node_ast_for_effects(n))))
     consumer = [x for x in walk_shallow(fn) if isinstance(x, ast.For) and unparse(x.iter) == f"{ROLES.out_get}.read()"]
     cvar = unparse(consumer[0].target) if consumer else "i"
-    ys = nodes_where(g, lambda n: n.kind == "stmt" and isinstance(n.ast, ast.Expr) and isinstance(n.ast.value, ast.Yield) and unparse(n.ast.value.value) == cvar)
+    # the consumer hands the outputs on: `yield i`, or `yield from <decoder>.filter([i])` when the workers encode their outputs
+    ys = nodes_where(g, lambda n: n.kind == "stmt" and isinstance(n.ast, ast.Expr) and (
+        (isinstance(n.ast.value, ast.Yield) and n.ast.value.value is not None and unparse(n.ast.value.value) == cvar) or
+        (isinstance(n.ast.value, ast.YieldFrom) and any(isinstance(y, ast.Name) and y.id == cvar for y in ast.walk(n.ast.value.value)))))
     ctx.floor("C08.R4", "consumer yield sites", len(ys), 1)
     exits = {g.exit_return, g.exit_raise, g.exit_abandon}
     # failures *inside* the clean-up itself (a queue operation raising something other than Empty) are not part of
@@ -393,6 +396,26 @@ def r8_report_channel(ctx):
     j = ctx.fn(LNS, "ProcessLine.join")
     order = [("join" if unparse(c.func) == "super().join" else "recv") for c in walk_shallow(j) if isinstance(c, ast.Call) and unparse(c.func) in ("super().join", "self._get_result")]
     ctx.ob("C08.R8", LNS, "ProcessLine.join", j, "the report is received before the parent waits for the worker process to exit", order[:1] == ["recv"], detail={"order": order}, stmt="receive before join")
+    # ... and because the receive now comes first it has to wait for the report itself: the poll() that guards recv() is preceded, in its own block, by an
+    # untimed wait([<the pipe>, self.sentinel]) -- report there, or worker gone (the parent's own write end keeps the pipe from ever signalling EOF)
+    g = ctx.fn(LNS, "ProcessLine._get_result")
+    recvs = [c for c in ast.walk(g) if isinstance(c, ast.Call) and call_tail(c) == "recv" and isinstance(c.func, ast.Attribute)]
+    waited = []
+    for c in recvs:
+        pipe = unparse(c.func.value)
+        found = False
+        for n in ast.walk(g):
+            for body in (getattr(n, "body", None), getattr(n, "orelse", None), getattr(n, "finalbody", None)):
+                if not isinstance(body, list):
+                    continue
+                at = next((k for k, st in enumerate(body) if any(y is c for y in ast.walk(st))), None)
+                if at is None:
+                    continue
+                found = found or any(isinstance(st, ast.Expr) and isinstance(st.value, ast.Call) and call_tail(st.value) == "wait" and len(st.value.args) == 1 and not st.value.keywords
+                                     and isinstance(st.value.args[0], (ast.List, ast.Tuple)) and {pipe, "self.sentinel"} <= {unparse(e) for e in st.value.args[0].elts} for st in body[:at])
+        waited.append(found)
+    ctx.ob("C08.R8", LNS, "ProcessLine._get_result", enclosing_stmt(recvs[0]) if recvs else g, "a receive that precedes join() waits, untimed, until the worker has reported or has exited",
+           order[:1] != ["recv"] or (bool(recvs) and all(waited)), detail={"receives": len(recvs), "waited": waited}, stmt="wait for report or exit")
     run_ = ctx.fn(LNS, "ProcessLine.run")
     sends = [c for c in walk_shallow(run_) if isinstance(c, ast.Call) and unparse(c.func) == "self._send.send"]
     ctx.floor("C08.R8", "report sends in ProcessLine.run", len(sends), 1)
@@ -400,7 +423,28 @@ def r8_report_channel(ctx):
         first = c.args[0].elts[0] if c.args and isinstance(c.args[0], ast.Tuple) else None
         raw = isinstance(first, ast.Name) and any(isinstance(x, ast.Assign) and any(isinstance(t, ast.Tuple) and unparse(t.elts[0]) == first.id for t in x.targets)
                                                    and isinstance(x.value, ast.Tuple) and isinstance(x.value.elts[0], ast.Name) for x in ast.walk(run_))
-        ctx.ob("C08.R8", LNS, "ProcessLine.run", c, "the exception is sent in a form the parent can always rebuild (not the bare user exception object)", not raw,
+        # a bare exception object is fine when the worker has first proved that it can be rebuilt: a try that precedes the send in the same block whose body
+        # round-trips the object (loads(dumps(<it>))) and whose handler (Exception or wider) rebinds the name to a repo / builtin exception built from text
+        checked = False
+        if raw:
+            blk = next((body for n in ast.walk(run_) for body in (getattr(n, "body", None), getattr(n, "orelse", None), getattr(n, "finalbody", None))
+                        if isinstance(body, list) and any(c in list(ast.walk(st)) for st in body)), [])
+            idx = next((i for i, st in enumerate(blk) if c in list(ast.walk(st))), 0)
+            for st in blk[:idx]:
+                if not isinstance(st, ast.Try):
+                    continue
+                trips = any(isinstance(y, ast.Call) and call_tail(y) == "loads" and y.args and isinstance(y.args[0], ast.Call) and call_tail(y.args[0]) == "dumps"
+                            and y.args[0].args and unparse(y.args[0].args[0]) == first.id for b_ in st.body for y in ast.walk(b_))
+                wide = [h for h in st.handlers if h.type is None or unparse(h.type) in ("Exception", "BaseException")]
+                rebinds = any(isinstance(x, ast.Assign) and [unparse(t) for t in x.targets] == [first.id] and isinstance(x.value, ast.Call)
+                              and call_tail(x.value) in ("CobaException", "Exception", "RuntimeError") and x.value.args
+                              and all(isinstance(a_, (ast.JoinedStr, ast.Constant)) or (isinstance(a_, ast.Call) and call_tail(a_) in ("str", "repr")) for a_ in x.value.args)
+                              for h in wide for x in h.body)
+                # nothing between the proof and the send may rebind the name
+                later = any(isinstance(x, (ast.Assign, ast.AugAssign)) and first.id in {n.id for t in (x.targets if isinstance(x, ast.Assign) else [x.target]) for n in ast.walk(t) if isinstance(n, ast.Name)}
+                            for st2 in blk[blk.index(st) + 1:idx] for x in ast.walk(st2))
+                checked = checked or (trips and rebinds and not later)
+        ctx.ob("C08.R8", LNS, "ProcessLine.run", c, "the exception is sent in a form the parent can always rebuild (a bare user exception object only after a pickle round trip in the worker proved it)", not raw or checked,
                detail={"sent": unparse(first) if first is not None else None}, stmt="report is always unpicklable")
     tries = [t for t in walk_shallow(run_) if isinstance(t, ast.Try)]
     caught = sorted({unparse(e) for t in tries for h in t.handlers for e in ((h.type.elts if isinstance(h.type, ast.Tuple) else [h.type]) if h.type is not None else [ast.Name("BaseException")])})
@@ -515,7 +559,15 @@ def r9_no_blocking_receive(ctx, rule="C08.R9"):
 
 
 CONTROLS = [
+    ("worker outputs written raw to the out-queue", PMP, M.replace_expr("Multiprocessor.filter", "SourceSink(in_get, setter, unpickler, get_max, Safe(Foreach(self._filter)), pickler, out_put)",
+        "SourceSink(in_get, setter, unpickler, get_max, Safe(Foreach(self._filter)), out_put)"), "C08.R1"),
     ("limit of one child task read as unlimited", "coba/multiprocessing.py", M.replace_stmt("CobaMultiprocessor.__init__", M.text_has("self._maxtasksperchild ="), "self._maxtasksperchild = maxtasksperchild if maxtasksperchild > 1 else 0"), "C08.R5"),
+    ("report read only after the worker exited", LNS, M.chain(M.delete_stmt("ProcessLine.join", M.text_has("self._get_result()")), M.insert_after("ProcessLine.join", M.text_has("super().join()"), "self._get_result()")), "C08.R8"),
+    ("receive no longer waits for the report", LNS, M.delete_stmt("ProcessLine._get_result", M.text_has("wait([")), "C08.R8"),
+    ("receive waits with a timeout", LNS, M.replace_expr("ProcessLine._get_result", "wait([self._recv, self.sentinel])", "wait([self._recv, self.sentinel], 1)"), "C08.R8"),
+    ("report sent without the round-trip proof", LNS, M.delete_stmt("ProcessLine.run", lambda st: isinstance(st, ast.Try) and "loads(dumps(" in ast.unparse(st)), "C08.R8"),
+    ("round-trip fallback keeps the object", LNS, M.replace_expr("ProcessLine.run", "CobaException(f'{type(ex).__name__}: {ex}')", "CobaException(ex)"), "C08.R8"),
+    ("worker reports only KeyboardInterrupt besides Exception", LNS, M.replace_expr("ProcessLine.run", "BaseException", "KeyboardInterrupt"), "C08.R8"),
     ("parent closes its write end right after start", LNS, M.insert_after("ProcessLine.start", M.text_has("super().start()"), "send.close()"), "C08.R9"),
     ("report read without polling", LNS, M.replace_expr("ProcessLine._get_result", "self._recv.poll()", "True"), "C08.R9"),
     ("worker swallows EOFError of the filter", LNS, M.replace_stmt("ProcessLine.run", lambda st: isinstance(st, ast.Try),
@@ -526,7 +578,7 @@ CONTROLS = [
     ("swallow worker errors", PMP, M.replace_stmt("Multiprocessor.filter", M.text_has("if self._exceptions"), "pass", nth=0), "C08.R3"),
     ("no drain on abandon", PMP, M.replace_stmt("Multiprocessor.filter", M.text_has("self._load_stopper.stop()"), "pass"), "C08.R4"),
     ("limit after filter", PMP, M.replace_expr("Multiprocessor.filter",
-        "SourceSink(in_get, setter, unpickler, get_max, Safe(Foreach(self._filter)), out_put)",
-        "SourceSink(in_get, setter, unpickler, Safe(Foreach(self._filter)), get_max, out_put)"), "C08.R5"),
+        "SourceSink(in_get, setter, unpickler, get_max, Safe(Foreach(self._filter)), pickler, out_put)",
+        "SourceSink(in_get, setter, unpickler, Safe(Foreach(self._filter)), get_max, pickler, out_put)"), "C08.R5"),
     ("in-process applies filter to whole stream", PMP, M.replace_expr("Multiprocessor.filter", "Foreach(self._filter).filter(items)", "self._filter.filter(items)"), "C08.R6"),
 ]
